@@ -52,6 +52,9 @@ type ReloadProbe struct {
 	User    string // basic auth
 	Pass    string
 	Keys    map[string]string // deliver probes: candidate signing keys by name
+	Header  map[string]string // ingress probes: extra request headers
+	Host    string            // ingress probes: request Host ("" = httptest's default)
+	Remote  string            // ingress probes: remote address ("" = 192.0.2.10:4000)
 }
 
 // ReloadPair is an (old, new) configuration pair with probes that tell them apart.
@@ -111,6 +114,18 @@ func forwardPairs() []ReloadPair {
 			Old:    reloadHeader + route("/a", "pull { path /pull/a }"),
 			New:    reloadHeader + route("/a/b", "match { query \"env\" \"prod\" }", "pull { path /pull/ab }") + route("/a", "pull { path /pull/a }"),
 			Probes: []ReloadProbe{{Name: "with_query", Kind: "ingress", Method: "POST", Path: "/a/b?env=prod", Body: "{}"}, {Name: "without_query", Kind: "ingress", Method: "POST", Path: "/a/b", Body: "{}"}}},
+		{Name: "first_header_matcher_added",
+			Old:    reloadHeader + route("/a", "pull { path /pull/a }"),
+			New:    reloadHeader + route("/a/b", "match { header \"X-Env\" \"prod\" }", "pull { path /pull/ab }") + route("/a", "pull { path /pull/a }"),
+			Probes: []ReloadProbe{{Name: "with_header", Kind: "ingress", Method: "POST", Path: "/a/b", Body: "{}", Header: map[string]string{"X-Env": "prod"}}}},
+		{Name: "first_host_matcher_added",
+			Old:    reloadHeader + route("/a", "pull { path /pull/a }"),
+			New:    reloadHeader + route("/a/b", "match { host \"hooks.example.com\" }", "pull { path /pull/ab }") + route("/a", "pull { path /pull/a }"),
+			Probes: []ReloadProbe{{Name: "with_host", Kind: "ingress", Method: "POST", Path: "/a/b", Body: "{}", Host: "hooks.example.com"}}},
+		{Name: "first_remote_ip_matcher_added",
+			Old:    reloadHeader + route("/a", "pull { path /pull/a }"),
+			New:    reloadHeader + route("/a/b", "match { remote_ip \"203.0.113.0/24\" }", "pull { path /pull/ab }") + route("/a", "pull { path /pull/a }"),
+			Probes: []ReloadProbe{{Name: "from_net", Kind: "ingress", Method: "POST", Path: "/a/b", Body: "{}", Remote: "203.0.113.7:5555"}}},
 		{Name: "method_changed",
 			Old:    reloadHeader + route("/a", "match { method PUT }", "pull { path /pull/a }"),
 			New:    reloadHeader + route("/a", "match { method POST }", hm("s1"), "pull { path /pull/a }"),
@@ -295,6 +310,15 @@ func (r *reloadInst) answer(p ReloadProbe) string {
 		body := []byte(p.Body)
 		req := httptest.NewRequest(p.Method, p.Path, bytes.NewReader(body))
 		req.RemoteAddr = "192.0.2.10:4000"
+		if p.Remote != "" {
+			req.RemoteAddr = p.Remote
+		}
+		if p.Host != "" {
+			req.Host = p.Host
+		}
+		for k, v := range p.Header {
+			req.Header.Set(k, v)
+		}
 		if p.SignKey != "" {
 			ts := time.Now().Unix()
 			sum := sha256.Sum256(body)
